@@ -229,6 +229,22 @@ def oracle(line, impl_line):
     content, how = stream_content(rr[pe[0] + 1:], rid, role, first)
     if content[:len(got)] != got and role != 3:
         return "input delivered before the abort is not a prefix of what the client sent"
+    if role == 3:
+        # a Filter may have switched to Data: what it read from EACH stream must be a prefix of that stream's content in the records sent
+        active, per = first, {STDIN: [], DATA: []}
+        for ev, d in inv[0]["ops"]:
+            if ev[0] == 4:
+                active = ev[1] or None
+            elif ev[0] == 5 and ev[1] == 0:
+                active = ev[3] or None
+            elif ev[0] in (1, 2) and d and active in per:
+                per[active] += d
+            elif ev[0] == 3 and ev[1] == 1 and d and active in per:
+                per[active] += d[:ev[2]]
+        for t in (STDIN, DATA):
+            c, _ = stream_content(rr[pe[0] + 1:], rid, role, t)
+            if c[:len(per[t])] != per[t]:
+                return "input delivered from stream %d before the abort is not a prefix of what the client sent on that stream (%d bytes read)" % (t, len(per[t]))
     hops = C07.handler_ops(scripts[0])
     st = C07.expected_status(hops)
     # what the handler observed: a read that failed with ConnectionAborted = the client's abort as the handler sees it
